@@ -123,8 +123,10 @@ def insertHead (s : St) (b : Blk) : St :=
     fhead := if updateHeads then b.id else s.fhead }
 
 /-- `for i := n; ; i++ { if GetCanonicalHash(i) == {} { break }; DeleteCanonicalHash(i) }` (reorg, fix 4152cc7, and
-    HeaderChain.WriteHeader).  The Go loop has no bound; the fuel passed by the callers exceeds the number of entries
-    that can exist (`delCanonAbove_none` in Lemmas: the loop always stops at a gap, never on fuel). -/
+    HeaderChain.WriteHeader).  The Go loop has no bound; the fuel passed by the callers (`reorgFuel`: height of the
+    header head) exceeds the number of entries that can exist while nothing is indexed above the header head
+    (`delCanonAbove_clears` in Lemmas: under the invariant the loop stops at the gap, never on fuel).  Once the index is
+    already corrupt (known finding `sethead-stateless-leaves-index`) the bound is not justified and the replay stops. -/
 def delCanonAbove (canon : Map Nat) : Nat → Nat → Map Nat
   | 0, _ => canon
   | f + 1, i =>
